@@ -57,6 +57,140 @@ def _order_chain(fnode, e, depth=0):
     return "unknown", u(e)[:80]
 
 
+def _region_loop_of(run, fetch_loop):
+    """The enclosing loop that supplies start / stop of the fetch (one fetch per region), with the name of the region
+    sequence and, if the loop enumerates it, the index variable: (loop, sequence text, index name or None); None if the fetch
+    does not depend on an enclosing loop."""
+    kw = {k.arg: k.value for k in fetch_loop.iter.keywords if k.arg}
+    bounds = {n.id for k_ in ("start", "stop", "end", "region") if k_ in kw for n in ast.walk(kw[k_]) if isinstance(n, ast.Name)}
+    for a in fetch_loop.iter.args[1:]:
+        bounds |= {n.id for n in ast.walk(a) if isinstance(n, ast.Name)}
+    lp = getattr(fetch_loop, "parent", None)
+    while lp is not None and lp is not run.node:
+        if isinstance(lp, ast.For):
+            tnames = {n.id for n in ast.walk(lp.target) if isinstance(n, ast.Name)}
+            if tnames & bounds:
+                it = lp.iter
+                if isinstance(it, ast.Call) and u(it.func) == "enumerate" and it.args and isinstance(lp.target, ast.Tuple) and isinstance(lp.target.elts[0], ast.Name):
+                    return lp, u(it.args[0]), lp.target.elts[0].id
+                return lp, u(it), None
+        lp = getattr(lp, "parent", None)
+    return None
+
+
+def _already_written_skips(ctx, run, cfg, fetch_loop):
+    """`continue` statements of the fetch loop that skip an alignment because an EARLIER region of the same list returned it:
+    guarded by  any(P(alignment, s, e) for s, e in REGIONS[:i])  with i the index of the current region and P an overlap test.
+    Returns (nodes, verdict, why): verdict True (recognised and read), None (a skip is there but this rule cannot read it),
+    False (no such skip)."""
+    rl = _region_loop_of(run, fetch_loop)
+    if rl is None:
+        return set(), True, "one fetch per chromosome"
+    loop, seq, idx = rl
+    al = fetch_loop.target.id
+    nodes, verdict, why = set(), False, "no alignment is skipped because an earlier region returned it"
+    for c in [x for x in ast.walk(fetch_loop) if isinstance(x, ast.Continue)]:
+        lp = c
+        while lp is not None and not isinstance(lp, (ast.For, ast.While)):
+            lp = lp.parent
+        if lp is not fetch_loop:
+            continue
+        n = cfg.node_of(c)
+        for t, lab in cfg.dominating_edges(n):
+            if cfg.kind(t) != "test" or lab != "true":
+                continue
+            e = cfg.ast(t)
+            if not (isinstance(e, ast.Call) and u(e.func) == "any" and len(e.args) == 1 and isinstance(e.args[0], ast.GeneratorExp) and len(e.args[0].generators) == 1):
+                if al in {x.id for x in ast.walk(e) if isinstance(x, ast.Name)} and seq in u(e):
+                    verdict, why = None, "cannot read the skip condition `%s`" % u(e)[:80]
+                continue
+            g = e.args[0].generators[0]
+            earlier = idx is not None and u(g.iter) == "%s[:%s]" % (seq, idx) and not g.ifs
+            pred = e.args[0].elt
+            okp = None
+            if isinstance(pred, ast.Call):
+                targets, how = ctx.resolve(pred, run)
+                if len(targets) == 1 and len(pred.args) == 3 and u(pred.args[0]) == al and isinstance(g.target, ast.Tuple) and [u(x) for x in pred.args[1:]] == [u(x) for x in g.target.elts]:
+                    okp = _is_overlap_test(targets[0])
+            if earlier and okp:
+                nodes.add(n)
+                verdict, why = True, "an alignment is skipped exactly if one of the regions before the current one overlaps it (%s)" % u(e)[:70]
+            elif earlier and okp is None or not earlier and idx is None:
+                verdict, why = None, "cannot read the skip condition `%s`" % u(e)[:80]
+            else:
+                verdict, why = False, "the skip `%s` is not the test `an earlier region of the list overlaps the alignment`" % u(e)[:80]
+    return nodes, verdict, why
+
+
+def _is_overlap_test(fi):
+    """fi(alignment, start, end) returns  END > start and (end is None or alignment.reference_start < end)  where END is the
+    alignment's reference_end, or reference_start + 1 if it has no aligned base (what htslib's iterator compares).  True / False,
+    None if the body has another shape."""
+    from sa import pathfx
+
+    ps = util.params_of(fi.node)
+    if len(ps) != 3:
+        return None
+    a, s_, e_ = ps
+    try:
+        sums = pathfx.summaries(ctx_cfg(fi))
+    except Exception:
+        return None
+    rets = [(p_, r_) for p_ in sums for r_ in p_.returns()]
+    if not rets:
+        return None
+    good = True
+    for p_, r_ in rets:
+        v = r_[1]
+        if v is None:
+            return None
+        ats = atoms(v, True)
+        txt = {t for t, pol in ats if pol}
+        # reference_start < end (or end is None): appears as an Or -> atoms() of a disjunction gives nothing; read the tree
+        conj = v.values if isinstance(v, ast.BoolOp) and isinstance(v.op, ast.And) else [v]
+        has_left = has_right = False
+        for c_ in conj:
+            t_ = u(c_)
+            if isinstance(c_, ast.Compare) and len(c_.ops) == 1:
+                l_, r2 = u(c_.left), u(c_.comparators[0])
+                if (isinstance(c_.ops[0], ast.Gt) and r2 == s_ and "reference_" in l_) or (isinstance(c_.ops[0], ast.Lt) and l_ == s_ and "reference_" in r2):
+                    # END > start: END is reference_end, or reference_start + 1 on the path that found no aligned base
+                    has_left = l_ in ("%s.reference_end" % a, "%s.reference_start + 1" % a) or r2 in ("%s.reference_end" % a, "%s.reference_start + 1" % a)
+            elif isinstance(c_, ast.BoolOp) and isinstance(c_.op, ast.Or) and len(c_.values) == 2:
+                x_, y_ = c_.values
+                if u(x_) in ("%s is None" % e_,) and isinstance(y_, ast.Compare) and len(y_.ops) == 1 and ((isinstance(y_.ops[0], ast.Lt) and u(y_.left) == "%s.reference_start" % a and u(y_.comparators[0]) == e_) or (isinstance(y_.ops[0], ast.Gt) and u(y_.left) == e_ and u(y_.comparators[0]) == "%s.reference_start" % a)):
+                    has_right = True
+        good = good and has_left and has_right
+    return good
+
+
+def ctx_cfg(fi):
+    from sa.cfg import cfg_of
+
+    return cfg_of(fi)
+
+
+def r6(ctx):
+    """Exactly once under --regions: AlignmentFile.fetch(contig, start, stop) returns EVERY alignment that overlaps the region.
+    With one fetch per region, an alignment that overlaps two regions of the list (overlapping regions, or a read longer than
+    the gap between two regions) is returned twice; unless the loop skips what an earlier region already returned, it is
+    written twice."""
+    run = ctx.func(MOD + ".run_haplotag")
+    cfg = ctx.cfg(run)
+    loops = [n for n in walk_function(run.node) if isinstance(n, ast.For) and isinstance(n.iter, ast.Call) and u(n.iter.func).endswith(".fetch") and isinstance(n.target, ast.Name) and not any(k.arg == "contig" and isinstance(k.value, ast.Constant) and k.value.value == "*" for k in n.iter.keywords)]
+    ctx.require(loops, "region fetch loop not found in run_haplotag")
+    for loop in loops:
+        nodes, verdict, why = _already_written_skips(ctx, run, cfg, loop)
+        rl = _region_loop_of(run, loop)
+        # a list that is known to hold one region needs no skip
+        single = False
+        if rl is not None and verdict is False:
+            ga = guard_atoms(cfg, cfg.node_of(rl[0]))
+            single = ("1 == len(%s)" % rl[1], True) in ga
+        ok = True if single else verdict
+        ctx.ob(run.qual, "alignment-overlapping-two-regions-written-once", ok, run.loc(loop), why if ok else ("%s: fetch() returns every alignment overlapping the region, so one that overlaps two --regions of a chromosome is written (and listed) twice" % why if ok is False else why))
+
+
 def r1(ctx):
     run = ctx.func(MOD + ".run_haplotag")
     cfg = ctx.cfg(run)
@@ -72,7 +206,8 @@ def r1(ctx):
             a = cfg.ast(n)
             return cfg.kind(n) == "stmt" and a is not None and id(a) in inside and any(isinstance(c.func, ast.Attribute) and c.func.attr == "write" and u(c.func.value) == "bam_writer" and c.args and u(c.args[0]) == al for c in ast.walk(a) if isinstance(c, ast.Call))
 
-        probs = util.check_loop_conservation(cfg, loop, is_write)
+        dup_skips = set() if tail else _already_written_skips(ctx, run, cfg, loop)[0]  # decided by C10.R6
+        probs = util.check_loop_conservation(cfg, loop, lambda n, f=is_write, d=dup_skips: f(n) or n in d)
         name = "unmapped-tail" if tail else "region-loop"
         ctx.ob(run.qual, "%s:every-alignment-written" % name, not probs, run.loc(loop), "every fetched alignment reaches bam_writer.write(alignment); the loop has no early exit" if not probs else "an alignment can be %s" % ("skipped" if probs[0][0] == "skip" else "lost by an early exit"), cfg.describe_path(probs[0][1]) if probs else None)
         writes = [n for n in cfg.g.nodes if is_write(n)]
@@ -453,7 +588,8 @@ RULES = [
     ("C10.R3", "stale tags: HP/PS/PC defined on every path to the write", r3),
     ("C10.R4", "tie and empty rejection; tuple layouts; tag values", r4),
     ("C10.R5", "variant cursor skips only variants strictly left of the read", r5),
+    ("C10.R6", "exactly once under --regions: an alignment overlapping two regions is skipped where an earlier region returned it", r6),
 ]
 # instance floors: about 60% of the instances confirmed by hand on the reference tree -- a rule that suddenly matches far fewer
 # sites fails the run (exit 2); a clean-up that merges two sites into one does not
-FLOORS = {"C10.R1": 5, "C10.R2": 3, "C10.R3": 4, "C10.R4": 9, "C10.R5": 2}
+FLOORS = {"C10.R1": 5, "C10.R2": 3, "C10.R3": 4, "C10.R4": 9, "C10.R5": 2, "C10.R6": 1}
